@@ -897,12 +897,60 @@ MATS3 = [
 ]
 MATS4 = [
     [[3.0, -1.0, 0.0, 0.0], [-1.0, 3.0, -1.0, 0.0], [0.0, -1.0, 3.0, -1.0], [0.0, 0.0, -1.0, 3.0]],     # 1x4 mesh
-    [[8.0, 6.0, 3.0, 6.0], [6.0, 13.0, 6.0, 4.0], [3.0, 6.0, 8.0, 8.0], [6.0, 4.0, 8.0, 16.0]],        # Z^T Z + I of a 5x4 integer Z: correlated columns, condition number 25
+    [[4.0, 1.0, 2.0, 0.0], [1.0, 3.0, 0.0, 1.0], [2.0, 0.0, 5.0, 1.0], [0.0, 1.0, 1.0, 2.0]],          # moderately correlated, mixed sparsity
 ]
 
 BODIES = {"case_solver": body_solver, "case_unconstrained": body_unconstrained, "case_inversion": body_inversion}
 EXPLORER_OPTS = {"timeout_ms": 20000, "max_paths": 20000, "max_decisions": 150, "logic": "QF_NRA", "max_candidates": 3}
 BUDGET_S = {"quick": 900, "thorough": 2300}
+
+
+BOUNDS = {
+    "quick": "Matrix F+H concrete, right-hand side symbolic: 6 SPD matrices of n=2 and 2 of n=3 (correlated, anti-correlated, "
+             "orthogonal, regularisation-like), every data vector D in the box [-10,10]^n, cold start and warm start "
+             "(reconstruction_positive_only_from) plus fnnls_cholesky called directly; unconstrained solver on 3 matrices n=2 and one n=3. "
+             "aa.Inversion on a real imaging dataset (3x3 unmasked pixels in a 7x7 frame, 3x3 PSF, non-uniform noise map): "
+             "unconstrained solver with all 9 image values symbolic (rectangular 3x3 / 3x5 mesh with constant regularisation, both "
+             "formalisms; two linear-function objects; two successive inversions sharing one Preloads.curvature_matrix); positive-only "
+             "solver with 2-3 image values symbolic and the others a fixed signed pattern: two linear-function objects (n=3, cold and warm), "
+             "rectangular 3x5 mesh with force_edge_pixels_to_zeros (3 free parameters; mapping+cold, w_tilde+warm, Preloads history, "
+             "force_edge_image_pixels_to_zeros). Every solver comparison forks (decision margin 2^-30).",
+    "thorough": "as quick plus 4 SPD matrices of n=3 and 2 of n=4 (tridiagonal, moderately correlated), all D in [-10,10]^n, cold and warm; "
+                "aa.Inversion positive-only with 3 symbolic image values on 3x5 meshes over 3x3 and 3x4 pixel regions (both formalisms, "
+                "cold/warm), 4x4 mesh over 4x4 pixels (4 free parameters, 4 symbolic values), force_edge_pixels_to_zeros with "
+                "linear-function objects only.",
+}
+OUTSIDE = [
+    "symbolic matrices F+H (the matrix is always concrete); n > 4 free parameters; strongly correlated n = 4 systems "
+    "(condition number >= 25: nlsat leaves some decision regions undecided within 20 s)",
+    "right-hand sides within 2^-30 (2^-29 for comparisons against the solver's 1e-16 tolerance) of a decision boundary of the "
+    "active-set algorithm (decision-margin policy); float64 cancellation inside d + alpha (s - d)",
+    "positive-only solver with a rectangular mapper and force_edge_pixels_to_zeros=False (>= 9 free parameters)",
+    "image values outside [-10, 10]; the construction of F, H, D themselves (C04), of the mapping matrices (C06) and of the convolution (C03): "
+    "the reference system is built from the repo's mapping matrices and regularization matrices with an independent convolution / normal equations",
+    "interferometer inversions, Delaunay / Voronoi meshes, adaptive regularisation",
+]
+STUBS = [
+    "scipy.linalg.solve / cho_solve (autoarray.util.fnnls) and numpy.linalg.solve (inversion_util) with a concrete matrix and a symbolic "
+    "right-hand side: the real LAPACK routine is run on the identity and the resulting concrete matrix multiplies the symbolic vector "
+    "(contract: linear in the right-hand side; entries within 1e-15 of a rational with denominator <= 10^4 are replaced by that rational)",
+    "scipy.linalg.cholesky / solve_triangular, cholinsertlast, choldeleteindexes, _cholupdate: real code on concrete floats (no stub)",
+    "work arrays of fnnls_cholesky (np.zeros) are an ndarray subclass whose ordering comparisons return real boolean arrays by forking; "
+    "np.max / np.min / argmax / clip reduce through the element comparisons (each forks under the margin policy)",
+    "Explorer.decide wrapped: every real-valued comparison atom t ~ c adds the path assumption |t - c| >= 2^-30 (|t| >= 2^-29 when |c| <= 2^-30), "
+    "unless t is one and the same constant on the whole path (checked by a validity query)",
+    "mapped-data obligations: decided first with the reconstruction entries abstracted to fresh variables (linear real arithmetic, "
+    "tolerance 1e-9 (1 + sum |s_j|)); residual obligations of the unconstrained solver first under the box constraints alone; "
+    "both fall back to the full path condition when not unsat",
+    "Preloads.curvature_matrix is handed over as an object-dtype copy in symbolic runs (the repo's in-place F += H needs it), float64 in replay",
+]
+ASSUMPTIONS = [
+    "exact real arithmetic with LAPACK results taken as exact rationals of their float64 values; KKT tolerance 1e-7 in the obligations, "
+    "5e-8 in the float64 replay",
+    "every decision of the active-set solver is delta-robust (delta = 2^-30): inputs closer to a decision boundary are outside the claim",
+    "aborted (infeasible) paths under the margin policy and paths deeper than 150 decisions are reported as errors / counterexample "
+    "candidates, never dropped silently",
+]
 
 
 def _inv(region, sym, objs, mesh, w_tilde, positive, warm, edge, history=0, zero_pixels=None):
@@ -969,8 +1017,17 @@ def cases(tier):
 
 
 def replay(cand):
+    """float64 run of the same body on the untouched code; a counterexample must violate KKT by more than TAU_REPLAY"""
     _STATE["replay"] = True
     try:
-        return hx.replay_body(BODIES[cand["case_fn"]], cand)
+        ok, detail = hx.replay_body(BODIES[cand["case_fn"]], cand)
+        try:
+            A, _ = BODIES[cand["case_fn"]](hx.to_float_struct(cand["case"]), **cand["case_kwargs"])
+            sols = {k: np.asarray(v, dtype=float).round(6).tolist() for k, v in A.items() if k.endswith("solution")}
+            if sols:
+                detail += " | returned " + ", ".join("%s=%s" % kv for kv in sols.items())
+        except Exception:  # noqa
+            pass
+        return ok, detail
     finally:
         _STATE["replay"] = False
